@@ -247,4 +247,52 @@ mod vp_replays {
         assert!(unstable_blocks::peek(&blocks).is_none(),
             "the anchor is reported stable although fork C is only 10 blocks shorter than A (bound {bound})");
     }
+
+    // F9 (C06): pages form one snapshot even if the block holding the UTXOs stabilises between two page requests.
+    // One transaction pays the address with 1300 outputs; page 1 is served while the block is unstable (unstable source,
+    // ordered by Utxo::cmp = numeric vout), page 2 after it has become stable (stable index, ordered by key bytes).
+    #[test]
+    fn f9_pages_are_one_snapshot_across_stabilisation() {
+        let network = Network::Regtest;
+        let btc_network = into_bitcoin_network(network);
+        crate::init(InitConfig { stability_threshold: Some(3), network: Some(network), ..Default::default() });
+        let address: crate::types::Address = random_p2pkh_address(btc_network).into();
+        let mut tx = TransactionBuilder::coinbase();
+        for i in 0..1300u64 {
+            tx = tx.with_output(&address, 1000 + i);
+        }
+        let genesis = genesis_block(network);
+        let b1 = BlockBuilder::with_prev_header(genesis.header()).with_transaction(tx.build()).build();
+        let b2 = BlockBuilder::with_prev_header(b1.header()).build();
+        let b3 = BlockBuilder::with_prev_header(b2.header()).build();
+        with_state_mut(|s| {
+            for b in [&b1, &b2] {
+                state::insert_block(s, b.clone()).unwrap();
+            }
+        });
+        let p1 = get_utxos(GetUtxosRequest { address: address.to_string(), filter: None }).unwrap();
+        assert_eq!(p1.utxos.len(), 1000);
+        let token = p1.next_page.clone().expect("more than one page");
+        // the chain grows, genesis and then b1 become stable and are ingested into the stable UTXO set
+        with_state_mut(|s| {
+            for b in [&b3, &BlockBuilder::with_prev_header(b3.header()).build()] {
+                state::insert_block(s, b.clone()).unwrap();
+            }
+        });
+        for _ in 0..10 {
+            with_state_mut(state::ingest_stable_blocks_into_utxoset);
+        }
+        assert!(with_state(|s| s.utxos.next_height()) >= 2, "scenario: b1 is stable now");
+        let p2 = get_utxos(GetUtxosRequest { address: address.to_string(), filter: Some(UtxosFilter::Page(token.to_vec().into())) }).unwrap();
+        assert_eq!(p2.tip_block_hash, p1.tip_block_hash, "every page names the first response's tip");
+        assert!(p2.next_page.is_none());
+        let mut vouts: Vec<u32> = p1.utxos.iter().chain(p2.utxos.iter()).map(|u| u.outpoint.vout).collect();
+        vouts.sort();
+        let expected: Vec<u32> = (0..1300).collect();
+        let missing: Vec<u32> = expected.iter().filter(|v| !vouts.contains(v)).cloned().collect();
+        let mut dup = vouts.clone();
+        dup.dedup();
+        assert!(vouts == expected, "following the pages returned {} outputs ({} distinct) of 1300; missing {:?}",
+            vouts.len(), dup.len(), &missing[..missing.len().min(8)]);
+    }
 }
